@@ -275,7 +275,9 @@ def explore(item, tier, seed):
                 if rep.states % 97 == 1:
                     rep.sample({"label": lab, "method": m})
     elif kind == "E1LP":
-        for idx, lab, pr, m in F.family("quick"):
+        import itertools as _it
+
+        for idx, lab, pr, m in _it.chain(F.family("quick"), F.view_family()):
             if idx % (n * (1 if tier == "thorough" else 4)) == i:
                 record(check_real(pr, m, rep), {"mode": "real", "label": lab, "problem": pr, "method": m})
     else:
